@@ -21,22 +21,22 @@ def nlStep (E : Env) (normalize : Bool) (s : State) : State :=
     let doc := appendLine E normalize s.doc s.line linebuf
     let obuf := if linebuf ≠ [] then [] else s.obuf
     let doc := if normalize then doc else { doc with toks := doc.toks ++ [{ word := [nl], line := s.line }] }
-    { s with obuf := obuf, linebuf := [], deferredWord := false,
-             line := s.line + 1 + (if s.deferredWord then 1 else 0), doc := doc }
+    { s with obuf := obuf, linebuf := [], deferredEOL := false, deferredLines := 0,
+             line := s.line + 1 + (if s.deferredEOL then 1 else 0) + s.deferredLines, doc := doc }
 
 /-- the state after flushing the word in progress on a space (before the rune is re-read) -/
 def spaceFlush (E : Env) (normalize : Bool) (s : State) : State :=
   let linebuf := s.linebuf ++ [flushWord E s.obuf]
   let s1 : State :=
-    if s.deferredWord then
-      { s with linebuf := [], deferredWord := false, line := s.line + 1,
+    if s.deferredLines > 0 then
+      { s with linebuf := [], deferredLines := 0, line := s.line + s.deferredLines,
                doc := appendLine E normalize s.doc s.line linebuf }
     else { s with linebuf := linebuf }
   { s1 with obuf := [] }
 
 /-- a non-space rune continuing a word -/
 def contStep (s : State) (c : List Rune) : State :=
-  let s1 := if s.deferredEOL then { s with deferredEOL := false, deferredWord := true } else s
+  let s1 := if s.deferredEOL then { s with deferredEOL := false, deferredLines := s.deferredLines + 1 } else s
   { s1 with obuf := s1.obuf ++ c }
 
 theorem step_eq (E : Env) (n : Bool) (s : State) (r : Rune) :
@@ -189,7 +189,7 @@ theorem obuf_empty_after_space' (E : Env) (n : Bool) (wf : EnvWF E) (s : State) 
 
 theorem crlf_equiv' (E : Env) (n : Bool) (wf : EnvWF E) (s : State) (r : Rune)
     (hsp : E.isSpace r = true) (hr : r ≠ nl)
-    (hd : s.deferredEOL = false) (hw : s.deferredWord = false) (hh : s.obuf.getLast? ≠ some hyphen) :
+    (hd : s.deferredEOL = false) (hw : s.deferredLines = 0) (hh : s.obuf.getLast? ≠ some hyphen) :
     step E n (step E n s r) nl = step E n s nl := by
   rw [step_eq E n s r]
   simp only [hr, if_false, hsp, if_true, hd, space_startOrSkip E n wf _ r hsp]
@@ -252,12 +252,12 @@ theorem contStep_lift (d : Doc) (k : Nat) (s : State) (c : List Rune) :
 theorem spaceFlush_lift (E : Env) (n : Bool) (d : Doc) (k : Nat) (s : State) :
     spaceFlush E n (lift d k s) = lift d k (spaceFlush E n s) := by
   unfold spaceFlush
-  by_cases h : s.deferredWord = true
-  · have h' : (lift d k s).deferredWord = true := h
-    simp only [h, h', if_true]
+  have hdl : (lift d k s).deferredLines = s.deferredLines := rfl
+  simp only [hdl]
+  by_cases h : s.deferredLines > 0
+  · simp only [h, if_true]
     simp only [lift, appendLine_lift, Nat.add_right_comm]
-  · have h' : ¬ (lift d k s).deferredWord = true := h
-    simp only [h, h']; rfl
+  · simp only [h, if_false]; rfl
 
 theorem nlStep_lift (E : Env) (n : Bool) (d : Doc) (k : Nat) (s : State) :
     nlStep E n (lift d k s) = lift d k (nlStep E n s) := by
@@ -266,8 +266,9 @@ theorem nlStep_lift (E : Env) (n : Bool) (d : Doc) (k : Nat) (s : State) :
   have hl : (lift d k s).linebuf = s.linebuf := rfl
   have hli : (lift d k s).line = s.line + k := rfl
   have hd : (lift d k s).doc = appendDoc d (shiftDoc k s.doc) := rfl
-  have hdw : (lift d k s).deferredWord = s.deferredWord := rfl
-  simp only [ho, hl, hli, hd, hdw]
+  have hdw : (lift d k s).deferredLines = s.deferredLines := rfl
+  have hde : (lift d k s).deferredEOL = s.deferredEOL := rfl
+  simp only [ho, hl, hli, hd, hdw, hde]
   by_cases h : s.obuf ≠ [] ∧ s.obuf.getLast? = some hyphen
   · rw [if_pos h, if_pos h]; rfl
   · rw [if_neg h, if_neg h]
@@ -313,7 +314,7 @@ theorem clean_eq_lift (s : State) (hc : Clean s) (hl : 1 ≤ s.line) :
     s = lift s.doc (s.line - 1) {} := by
   obtain ⟨h1, h2, h3, h4⟩ := hc
   cases s with
-  | mk obuf linebuf line deferredEOL deferredWord doc =>
+  | mk obuf linebuf line deferredEOL deferredLines doc =>
     simp only at h1 h2 h3 h4 hl
     subst h1 h2 h3 h4
     cases doc with
@@ -339,7 +340,7 @@ theorem step_nl_clean (E : Env) (s : State) (hc : Clean s) :
   simp only [if_true]
   unfold nlStep
   cases s with
-  | mk obuf linebuf line deferredEOL deferredWord doc =>
+  | mk obuf linebuf line deferredEOL deferredLines doc =>
     simp only at h1 h2 h3 h4
     subst h1 h2 h3 h4
     simp [appendLine]
